@@ -88,9 +88,32 @@ def _manager(col, rule="C12.R3"):
                 "a Manager attribute is a plain container (default_factory a module-level name, no lambda/closure): pickled through __dict__",
                 A.src(v))
     hooks = [m for m in ("__getstate__", "__setstate__", "__reduce__", "__reduce_ex__", "__getnewargs__", "__copy__", "__deepcopy__") if m in mg.methods]
-    col.add(rule, "Manager#pickled-through-__dict__", not hooks, mg.module.loc(mg.methods[hooks[0]]) if hooks else mg.module.loc(mg.node),
-            "Manager defines no pickling hook: the indices (reference-counted multisets whose multiplicities matter) are restored "
-            "exactly as they were, not rebuilt", str(hooks))
+    hard = [h for h in hooks if h not in ("__getstate__", "__setstate__")]
+    if hard:
+        raise AnalysisError(f"Manager defines {hard}: custom reconstruction, cannot decide statically")
+    bad = []
+    if "__setstate__" in mg.methods:
+        from . import c17
+        cx = FnCtx(mg.module, mg, mg.methods["__setstate__"])
+        sp = A.params(cx.fn)[1]
+        muts = c17.mutation_sites(cx)
+        if muts:
+            bad.append(f"__setstate__ rebuilds/mutates definitions or indices: {[d for _, d in muts]}")
+        if any(isinstance(c.func, ast.Attribute) and c.func.attr in ("register", "refresh", "clone", "cleanup", "unregister") for c in A.calls(cx.fn)):
+            bad.append("__setstate__ re-registers tasks")
+        restores = any((isinstance(c.func, ast.Attribute) and c.func.attr == "update" and A.dotted(c.func.value) == "self.__dict__"
+                        and c.args and A.dotted(c.args[0]) == sp) for c in A.calls(cx.fn)) or \
+            any(isinstance(n, ast.Assign) and A.dotted(n.targets[0]) == "self.__dict__" and A.dotted(n.value) == sp for n in A.walk(cx.fn))
+        if not restores:
+            bad.append("__setstate__ does not restore the pickled __dict__ as it was")
+    if "__getstate__" in mg.methods:
+        fn = mg.methods["__getstate__"]
+        rets = [n.value for n in A.walk(fn) if isinstance(n, ast.Return)]
+        if not (len(rets) == 1 and A.src(rets[0]) in ("self.__dict__", "self.__dict__.copy()", "dict(self.__dict__)")):
+            bad.append(f"__getstate__ returns {[A.src(r) for r in rets]}")
+    col.add(rule, "Manager#pickled-through-__dict__", not bad, mg.module.loc(mg.methods[hooks[0]]) if hooks else mg.module.loc(mg.node),
+            "Manager's state is pickled and restored as its __dict__: the indices (reference-counted multisets whose multiplicities "
+            "matter) come back exactly as they were, they are not rebuilt", "; ".join(bad))
     slots = "__slots__" in mg.consts
     col.add(rule, "Manager#no-slots", not slots, mg.module.loc(mg.node), "Manager keeps its state in __dict__", "")
     rc = repo.cls("RefCount")
